@@ -390,7 +390,7 @@ def run_instance(modname, hname, params, opts, conn=None):
                     nvars = len(xa._vars(simp))
                     goals = [simp] + pc
                     asserts = list(env._closure(goals)) + list(pc) + [simp]
-                    r, engine, s = guess_model(asserts, seed)
+                    r, engine, s = guess_model(asserts, seed) if opts.get("som_blowup") else (None, None, None)
                     if r is None:
                         r, engine, s = decide(asserts, timeout_ms)
                     ob.update(result=str(r), trivial=False, t=round(time.time() - ts, 3), nvars=nvars, engine=engine)
